@@ -67,6 +67,7 @@ RR_SCRIPTS = {
 
 # Joliet scripts (C09): names outside ASCII / outside the BMP, 64-character names, trees that differ between Joliet and ISO9660
 JOLIET_SCRIPTS = {
+    'joliet-duplicate-pvd': (dict(joliet=3), [('file', '/A.;1', None, '/a', 5), ('dup_pvd',), ('dir', '/D', None, '/d'), ('dup_pvd',), ('file', '/D/B.;1', None, '/d/b', 2049)]),
     'joliet-unicode': (dict(joliet=3), [('file', '/A.;1', None, '/\u00e9t\u00e9 \u65e5\u672c\u8a9e.txt', 7), ('file', '/B.;1', None, '/' + 'w' * 64, 3),
                                         ('dir', '/D', None, '/\u0434\u0438\u0440'), ('file', '/D/C.;1', None, '/\u0434\u0438\u0440/\U0001f600 smile', 2049),
                                         ('file', '/Z.;1', None, '/Zz', 1), ('file', '/Y.;1', None, '/zZ', 1)]),
@@ -443,6 +444,8 @@ def build(c, name):
             S.call(c, iso, 'add_symlink', symlink_path=op[1], rr_symlink_name=op[2], rr_path=op[3], **({'udf_symlink_path': op[4], 'udf_target': op[3]} if len(op) > 4 else {}))
         elif op[0] == 'hide':
             S.call(c, iso, 'set_hidden', iso_path=op[1])
+        elif op[0] == 'dup_pvd':
+            S.call(c, iso, 'duplicate_pvd')
         elif op[0] == 'reopen':
             # write what there is, open it again and go on editing the OPENED object
             img = S.written(c, iso)
@@ -965,6 +968,8 @@ UDF_SCRIPTS = {
                                                ('file', '/D2/B.;1', '/\u65e5\u672c/abc', 4), ('dir', '/D2/D3', '/\u65e5\u672c/\u00fcber'), ('file', '/D2/D3/C.;1', '/\u65e5\u672c/\u00fcber/\u4e2d', 5)]),
     'udf-symlink': (dict(udf='2.60', rock_ridge='1.09'), [('file', '/A.;1', '/a', 5), ('dir', '/D', '/d'), ('symlink', '/S.;1', '/s', 'd/../a'),
                                                           ('symlink', '/T.;1', '/t', '/abs/./x')]),
+    # further copies of the primary volume descriptor (K63: each used to add a sector behind the last anchor)
+    'udf-duplicate-pvd': (dict(udf='2.60'), [('file', '/A.;1', '/a', 5), ('dup_pvd',), ('dir', '/D', '/d'), ('dup_pvd',), ('file', '/D/B.;1', '/d/b', 2049)]),
     # target shapes: doubled and trailing slashes, dots, the root alone (K61: empty components used to be written as root components)
     'udf-symlink-shapes': (dict(udf='2.60', rock_ridge='1.09'), [('dir', '/D', '/d')] +
                            [('symlink', '/S%d.;1' % i, '/s%d' % i, t) for i, t in enumerate(
@@ -1113,6 +1118,8 @@ def build_udf(c, name):
             S.call(c, iso, 'add_hard_link', udf_old_path=op[1], udf_new_path=op[2])
         elif op[0] == 'rm_ulink':
             S.call(c, iso, 'rm_hard_link', udf_path=op[1])
+        elif op[0] == 'dup_pvd':
+            S.call(c, iso, 'duplicate_pvd')
         elif op[0] == 'reopen':
             img = S.written(c, iso)
             iso = c.new(S.PC)
